@@ -32,10 +32,12 @@ CHECKS = {
         'whole shell words by an independent quote-state scanner, $name/${..}/~/$(..)/`..`/<(..) forms, redirect = fd + operator + target), evaluated on every '
         'node of every returned tree incl. nested substitutions; contexts in which bashlex is known to misplace spans are part of the violation signature.',
    note=TB + ' Per-input evaluation against a Lean-defined oracle; no all-inputs theorem for the tokenizer\'s span bookkeeping.'),
- 'C05': dict(level='proof', technique='Lean 4 specification predicate evaluated on implementation outcomes + model correspondence',
-   text='Spec.coverOK (Lean): the leaf spans of the returned parts are disjoint and every character outside them is layout (blank, newline, comment, line '
+ 'C05': dict(level='proof', technique='Lean 4 proof (C05_partial: the leaves of every part are exactly the delivered tokens, above an explicit token-source hypothesis) + specification predicate evaluated on implementation outcomes; model correspondence',
+   text='C05_partial / C05_partial_parts / C05_tokens_in_leaves (Props/C05*.lean, LR/SoundOrdH.lean, 3300 lines): given TokLogAll, for every input and all options parse returns one part per parser run, in order, and the leaves of each part (Spec.leaves) are exactly the tokens the run consumed, grouped '
+        '([fd] operator target = one redirect leaf, here-document bodies attached as their own leaf or inside the extended redirect): no token is duplicated and the only tokens without a leaf are NEWLINEs in five listed grammar positions, each with a kernel-checked witness; defect D19 is characterised exactly (a d19 group) and excluded by a decidable predicate. '
+        'Per input: Spec.coverOK (Lean): the leaf spans of the returned parts are disjoint and every character outside them is layout (blank, newline, comment, line '
         'continuation), evaluated on every accepted input; model correspondence on the same inputs.',
-   note=TB + ' The leaf/token bijection is checked through the gaps (the token stream itself is not observable from outside).'),
+   note=TB + ' TokLogAll (the token-source hypothesis of C03 with a log of delivered tokens) is not discharged for the real tokenizer; the character-level half (text outside leaf spans is layout) and the link to the executable coverOK are not proved and are what the per-input evaluation carries.'),
  'C12': dict(level='proof', technique='Lean 4 typed AST + schema predicate evaluated on implementation outcomes + model correspondence; LR soundness with value invariants proved',
    text='PROVED for all inputs and all options (C12_partial, C12_partial_single, C12_only_pipelines; 4000 lines, by induction over arbitrary LR runs with a sort-indexed value invariant, an abstract type-checker of the actions decided by the kernel on the regenerated grammar, the real tokenizer\'s type/value consistency sat_nextToken, and induction on nesting depth): every node of every tree the model returns satisfies Spec.schemaOK except two named pipeline shapes. Tie: every returned tree is deserialised by a total function into the typed Lean AST (attribute sets and attribute types are then facts of the type; '
         'anything else is reported ill-typed) and Spec.schemaOK (sequence grammars of list/pipeline, kinds allowed per position, operator/pipe/redirect '
